@@ -120,7 +120,7 @@ Proof.
     + (* below the forget threshold: stays below *)
       destruct Htr as [| pn' ecn' lvl' t' ae' Ho Hsp' | p Ho Hsp'].
       * now left.
-      * left. now rewrite hist_recv_db.
+      * left. pose proof (hist_recv_db_le x pn' Hok). lia.
       * left. pose proof (hist_delete_below_db x p). lia.
     + destruct Htr as [| pn' ecn' lvl' t' ae' Ho Hsp' | p Ho Hsp'].
       * right; now left.
@@ -221,6 +221,118 @@ Proof.
   intros ops. apply (run_preserves invT invT_step ops [] newHandler). now left.
 Qed.
 
+(** * Where [deletedBelow] comes from (repaired trimming) *)
+
+Lemma hist_recv_db_pruned : forall h p,
+  deletedBelow (fst (hist_recv h p)) =
+  match pruned_by h p with Some e => Z.max (deletedBelow h) (e + 1) | None => deletedBelow h end.
+Proof.
+  intros h p. unfold hist_recv, pruned_by, trimmed_end.
+  destruct (p <? deletedBelow h); [reflexivity |].
+  destruct (addToRanges p (ranges h)) as [rs b]. cbn [fst deletedBelow].
+  destruct (rev (firstn (length rs - Z.to_nat rph_MaxNumAckRanges) rs)) as [| [s e] l]; reflexivity.
+Qed.
+
+Lemma wstep_panic : forall h W o, snd (step h o) = RPanic -> wstep h W o = W.
+Proof.
+  intros h W o Hr. destruct o; cbn [wstep]; try reflexivity. rewrite Hr. destruct (sp_of lvl); reflexivity.
+Qed.
+
+Lemma runW_preserves_gen : forall (P : list (op * res) -> handler -> wmap -> Prop),
+  (forall tr h W o, P tr h W -> P (tr ++ [(o, snd (step h o))]) (fst (step h o)) (wstep h W o)) ->
+  forall ops tr h W, P tr h W -> P (tr ++ trace h ops) (fst (runW h W ops)) (snd (runW h W ops)).
+Proof.
+  intros P Hstep. induction ops as [| o ops IH]; intros tr h W HP.
+  - unfold trace. simpl. now rewrite app_nil_r.
+  - pose proof (Hstep tr h W o HP) as Hs. pose proof (wstep_panic h W o) as Hpan.
+    unfold trace in *. cbn [runW run].
+    destruct (step h o) as [h' r] eqn:Hst. cbn [fst snd] in *.
+    specialize (IH (tr ++ [(o, r)]) h' (wstep h W o) Hs).
+    destruct r; try (destruct (run h' ops) as [h'' rs] eqn:Hrun; cbn [fst snd combine] in *;
+                     rewrite <- app_assoc in IH; exact IH).
+    cbn [fst snd combine]. rewrite (Hpan eq_refl) in Hs. destruct ops; exact Hs.
+Qed.
+
+(** the threshold of a space is the initial one, or one the caller passed (application data),
+    or one past the highest number the range limit dropped; and it covers every dropped number *)
+Definition invK (tr : list (op * res)) (h : handler) (W : wmap) : Prop :=
+  invA tr h /\
+  forall sp x, hist_of h sp = Some x ->
+    (forall w, W sp = Some w -> w + 1 <= deletedBelow x) /\
+    (deletedBelow x = rph_InvalidPacketNumber \/
+     (sp = 2%nat /\ exists r, In (Ignore (deletedBelow x), r) tr) \/
+     W sp = Some (deletedBelow x - 1)).
+
+Lemma invK_step : forall tr h W o, invK tr h W ->
+  invK (tr ++ [(o, snd (step h o))]) (fst (step h o)) (wstep h W o).
+Proof.
+  intros tr h W o (HA & HK). split; [now apply invA_step |].
+  assert (Hoks : forall sp x, hist_of h sp = Some x -> hist_ok x) by (intros sp x Hx; now apply (HA sp x)).
+  intros sp y Hy.
+  destruct (step_hist h o sp y Hy) as (x & Hx & Htr).
+  destruct (HK sp x Hx) as (K1 & K2).
+  assert (Hmono : forall r0, (sp = 2%nat /\ exists r, In (Ignore (deletedBelow x), r) tr) ->
+                  (sp = 2%nat /\ exists r, In (Ignore (deletedBelow x), r) (tr ++ [(o, r0)]))).
+  { intros r0 (E & r & Hin). split; [assumption |]. exists r. apply in_or_app. now left. }
+  (* is this call an accepted packet of this space? *)
+  assert (Hcase : (exists pn ecn lvl t ae, o = Recv pn ecn lvl t ae /\ sp_of lvl = Some sp /\ snd (step h o) = ROk) \/
+                  (wstep h W o sp = W sp /\
+                   ~ (exists pn ecn lvl t ae, o = Recv pn ecn lvl t ae /\ sp_of lvl = Some sp /\ snd (step h o) = ROk))).
+  { destruct o as [pn ecn lvl t ae | | | | | | |];
+      try (right; split; [reflexivity | intros (a1 & a2 & a3 & a4 & a5 & C & _); discriminate C]).
+    cbn [wstep]. destruct (sp_of lvl) as [sp' |] eqn:Hsp.
+    2:{ right. split; [reflexivity |]. intros (a1 & a2 & a3 & a4 & a5 & C & C2 & _). inversion C; subst. congruence. }
+    destruct (res_eq_ROk_dec (snd (step h (Recv pn ecn lvl t ae)))) as [Er | Er].
+    - destruct (Nat.eq_dec sp sp') as [E | E].
+      + subst sp'. left. exists pn, ecn, lvl, t, ae. auto.
+      + right. split.
+        * rewrite Er. destruct (hist_of h sp'); [| reflexivity].
+          destruct (Nat.eqb_spec sp sp'); [contradiction | reflexivity].
+        * intros (a1 & a2 & a3 & a4 & a5 & C & C2 & _). inversion C; subst. congruence.
+    - right. split.
+      + destruct (snd (step h (Recv pn ecn lvl t ae))); try reflexivity. contradiction.
+      + intros (a1 & a2 & a3 & a4 & a5 & C & _ & C3). inversion C; subst. contradiction. }
+  destruct Hcase as [(pn & ecn & lvl & t & ae & Ho & Hsp & Hr) | (HW & Hnot)].
+  - subst o. destruct (step_recv_ok h pn ecn lvl t ae sp y Hr Hsp Hy) as (x' & Hx' & Hy' & _).
+    rewrite Hx in Hx'. inversion Hx'; subst x'. subst y.
+    cbn [wstep]. rewrite Hsp, Hr, Hx, Nat.eqb_refl. rewrite hist_recv_db_pruned.
+    destruct (pruned_by x pn) as [e |].
+    + destruct (Z_le_dec (e + 1) (deletedBelow x)) as [Hle | Hgt].
+      * rewrite Z.max_l by lia. split.
+        -- intros w Hw. destruct (W sp) as [w0 |]; cbn [omax] in Hw; inversion Hw; subst; [specialize (K1 w0 eq_refl) |]; lia.
+        -- destruct K2 as [K2 | [K2 | K2]]; [now left | right; left; now apply Hmono |].
+           right; right. rewrite K2. cbn [omax]. f_equal. lia.
+      * rewrite Z.max_r by lia. split.
+        -- intros w Hw. destruct (W sp) as [w0 |]; cbn [omax] in Hw; inversion Hw; subst; [specialize (K1 w0 eq_refl) |]; lia.
+        -- right; right. destruct (W sp) as [w0 |]; cbn [omax]; f_equal; [specialize (K1 w0 eq_refl) |]; lia.
+    + split.
+      * intros w Hw. apply K1. destruct (W sp); cbn [omax] in Hw; exact Hw.
+      * destruct K2 as [K2 | [K2 | K2]]; [now left | right; left; now apply Hmono |].
+        right; right. rewrite K2. reflexivity.
+  - rewrite HW.
+    destruct Htr as [| pn' ecn' lvl' t' ae' Ho Hsp' | p Ho Hsp'].
+    + split; [assumption |]. destruct K2 as [K2 | [K2 | K2]]; [now left | right; left; now apply Hmono | now right; right].
+    + (* a reception that was not accepted (or belongs to the other case): history unchanged *)
+      subst o. destruct (res_eq_ROk_dec (snd (step h (Recv pn' ecn' lvl' t' ae')))) as [Er | Er].
+      * exfalso. apply Hnot. exists pn', ecn', lvl', t', ae'. auto.
+      * rewrite (step_recv_notok h pn' ecn' lvl' t' ae' Hoks Er sp) in Hy. rewrite Hx in Hy.
+        assert (Hyx : fst (hist_recv x pn') = x) by congruence. rewrite Hyx.
+        split; [assumption |]. destruct K2 as [K2 | [K2 | K2]]; [now left | right; left; now apply Hmono | now right; right].
+    + subst o sp. unfold hist_delete_below. destruct (Z.ltb_spec p (deletedBelow x)) as [Hlt | Hge].
+      * split; [assumption |]. destruct K2 as [K2 | [K2 | K2]]; [now left | right; left; now apply Hmono | now right; right].
+      * cbn [deletedBelow]. split.
+        -- intros w Hw. specialize (K1 w Hw). lia.
+        -- right; left. split; [reflexivity |]. eexists. apply in_or_app. right. left. reflexivity.
+Qed.
+
+Lemma invK_run : forall ops,
+  invK (trace newHandler ops) (fst (runW newHandler (fun _ => None) ops)) (snd (runW newHandler (fun _ => None) ops)).
+Proof.
+  intros ops. apply (runW_preserves_gen invK invK_step ops [] newHandler (fun _ => None)).
+  split; [apply invA_init |]. intros sp x Hx. apply newHandler_hist in Hx. subst x.
+  split; [intros w Hw; discriminate | now left].
+Qed.
+
 (** The clause "not below the threshold the peer allowed it to forget": if every threshold passed
     to IgnorePacketsBelow is at most [A] (what the peer confirmed), then every accepted
     application-data packet at or above [A] that the range limit has not dropped is listed in every
@@ -245,10 +357,74 @@ Proof.
   pose proof (invA_run ops 2%nat x) as HokA. rewrite <- Eh in HokA. destruct (HokA Hx) as (Hok & _).
   apply (is_dup_spec x q Hok) in Hd.
   assert (Hdb : deletedBelow x <= q).
-  { pose proof (invB_run ops) as (B1 & B2 & _). pose proof (invT_run ops) as HT. unfold invT in HT.
-    rewrite <- Eh in B1, B2, HT. fold x in B2.
-    assert (Hib : aIgnoreBelow (hApp (fst hw)) <= A).
-    { destruct HT as [HT | (r & HT)]; [lia | eauto]. }
-    destruct B2 as [B2 | [B2 _]]; unfold rph_InvalidPacketNumber in *; lia. }
+  { destruct (invK_run ops) as (_ & HK). fold hw in HK. destruct (HK 2%nat x Hx) as (_ & K2).
+    destruct K2 as [K2 | [(_ & r & K2) | K2]].
+    - rewrite K2. unfold rph_InvalidPacketNumber. lia.
+    - specialize (Hign _ _ K2). lia.
+    - rewrite K2 in Hnw. cbn [le_opt] in Hnw. lia. }
   destruct Hd as [Hd | Hd]; [lia |]. rewrite Hr. unfold backward. now rewrite inR_rev.
+Qed.
+
+(** * With the repaired trimming: no watermark is needed *)
+
+Definition invS (tr : list (op * res)) (h : handler) : Prop :=
+  invA tr h /\
+  forall sp x q, hist_of h sp = Some x -> accepted tr sp q -> known x q.
+
+Lemma invS_step : forall tr h o, invS tr h -> invS (tr ++ [(o, snd (step h o))]) (fst (step h o)).
+Proof.
+  intros tr h o (HA & HS). split; [now apply invA_step |].
+  assert (Hoks : forall sp x, hist_of h sp = Some x -> hist_ok x) by (intros sp x Hx; now apply (HA sp x)).
+  intros sp y q Hy Hacc.
+  destruct (step_hist h o sp y Hy) as (x & Hx & Htr).
+  pose proof (Hoks sp x Hx) as Hok.
+  destruct Hacc as (ecn & lvl & t & ae & Hin & Hsp).
+  apply in_app_or in Hin as [Hin | [Hin | []]].
+  - assert (Hacc : accepted tr sp q) by (exists ecn, lvl, t, ae; auto).
+    pose proof (HS sp x q Hx Hacc) as Hk.
+    destruct Htr as [| pn' ecn' lvl' t' ae' Ho Hsp' | p Ho Hsp'].
+    + exact Hk.
+    + apply (hist_recv_retains_strong x pn' q Hok). unfold known in Hk. tauto.
+    + now apply hist_delete_below_retains.
+  - inversion Hin as [[Ho Hr]]. subst o.
+    destruct (step_recv_ok h q ecn lvl t ae sp y Hr Hsp Hy) as (x' & Hx' & Hy' & _).
+    rewrite Hx in Hx'. inversion Hx'; subst x'. subst y.
+    apply (hist_recv_retains_strong x q q Hok). now left.
+Qed.
+
+Lemma invS_run : forall ops, invS (trace newHandler ops) (fst (run newHandler ops)).
+Proof.
+  intros ops. apply (run_preserves invS invS_step ops [] newHandler).
+  split; [apply invA_init |]. intros sp x q _ (ecn & lvl & t & ae & [] & _).
+Qed.
+
+(** C07_duplicate_detected at the handler, final form: every number accepted in a space is flagged
+    by IsPotentiallyDuplicate and refused by ReceivedPacket for as long as the space exists. *)
+Lemma handler_duplicate_always : forall ops sp q x,
+  let h := fst (run newHandler ops) in
+  accepted (trace newHandler ops) sp q ->
+  hist_of h sp = Some x ->
+  is_dup x q = true /\ snd (hist_recv x q) = false.
+Proof.
+  intros ops sp q x h Hacc Hx. destruct (invS_run ops) as (HA & HS). fold h in HA, HS.
+  destruct (HA sp x Hx) as (Hok & _).
+  assert (Hd : is_dup x q = true) by (apply is_dup_spec; [assumption | now apply (HS sp x q)]).
+  split; [assumption |]. rewrite hist_recv_isNew by assumption. now rewrite Hd.
+Qed.
+
+(** ... and everything accepted that is not below the threshold is in every generated ACK. *)
+Lemma accepted_stay_acked : forall ops sp q x lvl now only f,
+  let h := fst (run newHandler ops) in
+  accepted (trace newHandler ops) sp q -> sp_of lvl = Some sp -> hist_of h sp = Some x ->
+  deletedBelow x <= q ->
+  snd (h_get_ack h lvl now only) = Some f ->
+  inR q (aRanges f).
+Proof.
+  intros ops sp q x lvl now only f h Hacc Hsp Hx Hdb Hf.
+  destruct (handler_duplicate_always ops sp q x Hacc Hx) as (Hd & _).
+  destruct (h_get_ack_frame h lvl now only f Hf) as (sp' & x' & Hsp' & Hx' & Hr & _).
+  rewrite Hsp in Hsp'. inversion Hsp'; subst sp'. fold h in Hx. rewrite Hx in Hx'. inversion Hx'; subst x'.
+  destruct (invA_run ops sp x Hx) as (Hok & _).
+  apply (is_dup_spec x q Hok) in Hd. destruct Hd as [Hd | Hd]; [lia |].
+  rewrite Hr. unfold backward. now rewrite inR_rev.
 Qed.
